@@ -216,9 +216,9 @@ def main():
         # in a forked child taken right after the first parser object was constructed (before anything was parsed), so its
         # history is the same in every incarnation; the same little history under a valid cache is the baseline, so only a
         # dependence on the CACHE STATE (e.g. objects sharing freshly generated tables) can make a difference here.
-        def overlap_phase():
+        def overlap_phase(group):
             digs = []
-            for group in job["overlaps"]:
+            for group in [group]:
                 objs = []
                 for it in group:
                     try:
@@ -237,10 +237,12 @@ def main():
                 digs.append([core.digest_of(o)[:20] for o in outs_])
                 del objs
             return digs
-        try:
-            res["overlap_digests"] = isolate.run_isolated(overlap_phase, timeout=300)
-        except RuntimeError as e:
-            res["overlap_digests"] = [["harness", str(e)[:100]]]
+        res["overlap_digests"] = []
+        for group in job["overlaps"]:           # one fork per group: a group's history is "first object constructed" only
+            try:
+                res["overlap_digests"] += isolate.run_isolated(lambda g=group: overlap_phase(g), timeout=300)
+            except RuntimeError as e:
+                res["overlap_digests"].append(["harness", str(e)[:100]])
     outs = [None] * len(items)
     for n, it in enumerate(items):
         if n == 0:
